@@ -188,6 +188,34 @@ def _name_of(ev, m, group=1):
     return ("format", tuple(pieces))
 
 
+def type_kind_truth(cond, kind, CE=None):
+    """Truth of a condition over a RustFieldType value for kind in {"String", "Other", "prim"}: understands is_string()/is_other()
+    (as calls or expanded to `matches!`), variant patterns, not/and/or. None when the condition is about something else."""
+    c = CE.expand(cond) if CE is not None else cond
+    if not isinstance(c, tuple):
+        return None
+    if c[0] == "not":
+        t = type_kind_truth(c[1], kind)
+        return None if t is None else not t
+    if c[0] == "binop" and c[1] in ("And", "Or"):
+        a, b = type_kind_truth(c[2], kind), type_kind_truth(c[3], kind)
+        if a is None or b is None:
+            return None
+        return (a and b) if c[1] == "And" else (a or b)
+    if c[0] == "call" and str(c[1]).rsplit("::", 1)[-1] in ("is_string", "is_other"):
+        return (kind == "String") if str(c[1]).endswith("is_string") else (kind == "Other")
+    if c[0] == "islet":
+        lab = c[1].rsplit("::", 1)[-1]
+        name = lab.split("(")[0].split("{")[0].strip()
+        if name == "String":
+            return kind == "String"
+        if name == "Other":
+            return kind == "Other"
+        if name in ("I8", "I16", "I32", "I64", "U8", "U16", "U32", "U64", "F32", "F64", "Bool"):
+            return False if kind in ("String", "Other") else None
+    return None
+
+
 RE_NAME_RUN = re.compile(r"(?:\{\}|[A-Za-z0-9_])+")
 
 
